@@ -15,8 +15,10 @@ MANIFEST = dict(
          "2^16, by computation; only Array<WireString> keeps its count bound as a hypothesis). C19_psbt_sound / C19_psbt_accepts: the StreamedPSBT decoder, when it accepts, yields the "
          "encoded transaction, the previous outputs the encoded PSBT designates and the reference segwit flags, and it "
          "accepts exactly the consistent PSBTs (a witness_utxo without its previous transaction only for witness-program / p2sh "
-         "outputs: C19_psbt_bare_claims). The combinators, the dispatch and the PSBT post-processing are compared with "
-         "the real as_vec / msgs::from_vec on generated values of all registry types (boundary-driven), on malformed byte "
+         "outputs: C19_psbt_bare_claims). C19_frame / C19_framed_stream / C19_read_message: the u32 length framing inverts, and any "
+         "number of messages written back to back are read back one by one by read / read_message, leaving the rest of the stream. "
+         "The combinators, the dispatch and the PSBT post-processing are compared with "
+         "the real as_vec / msgs::from_vec / msgs::write / read / read_message / from_reader on generated values of all registry types (boundary-driven), on malformed byte "
          "strings and on consistent/inconsistent PSBTs on every run, with a round-trip monitor on the implementation.",
     design="§4 C19",
     note=lib.TB + "Additionally trusted: tools/gen_wire.py (reads struct/field/type/message_id/enum order; anything it does not "
@@ -29,7 +31,7 @@ MANIFEST = dict(
 )
 
 PINNED = ["C19_ids_unique", "C19_struct_codecs", "C19_registry", "C19_wf_from_size", "C19_registry_sized", "C19_psbt_sound", "C19_psbt_accepts", "C19_psbt_bare_claims", "C19_psbt_bare_legacy_refused",
-          "C19_streamed_field", "C19_nonvacuous", "C19_psbt_nonvacuous", "C19_duplicate_id_misroutes",
+          "C19_streamed_field", "C19_frame", "C19_framed_stream", "C19_read_message", "C19_nonvacuous", "C19_psbt_nonvacuous", "C19_duplicate_id_misroutes",
           "C19_old_id20_refuted"]
 
 
@@ -78,18 +80,23 @@ def run(res):
     msgs = lib.run_harness("wire", "msgs", res.seed, n_rand, res.tier)
     mal = lib.run_harness("wire", "malformed", res.seed, n_mal, res.tier)
     psbt = lib.run_harness("wire", "psbt", res.seed, n_psbt, res.tier)
+    framed = lib.run_harness("wire", "framed", res.seed, 60 if quick else 600, res.tier)
     cases, mals, psbts, wps = msgs["CASE"], mal["MAL"], psbt["PSBT"], psbt["WP"]
+    streams, fmals = framed["STREAM"], framed["FMAL"]
     imports = ["Model.WireCheck"]
-    f_wire = f_mal = f_psbt = f_wp = []
+    f_wire = f_mal = f_psbt = f_wp = f_stream = f_fmal = []
     if model_ok:   # (without a model only the monitors below run)
         f_wire = lib.coq_failures(imports, "wire_case", "check_wire", [c["coq"] for c in cases], "c19_wire")
         f_mal = lib.coq_failures(imports, "mal_case", "check_mal", [c["coq"] for c in mals], "c19_mal")
         f_psbt = lib.coq_failures(imports, "psbt_case", "check_psbt", [c["coq"] for c in psbts], "c19_psbt")
         f_wp = lib.coq_failures(imports, "wp_case", "check_wp", [c["coq"] for c in wps], "c19_wp")
+        f_stream = lib.coq_failures(imports, "stream_case", "check_stream", [c["coq"] for c in streams], "c19_stream")
+        f_fmal = lib.coq_failures(imports, "fmal_case", "check_fmal", [c["coq"] for c in fmals], "c19_fmal")
 
     # the property itself on the implementation's answers
     mon = [c for c in cases if c["monitor_violation"]]
     mon_psbt = [c for c in psbts if c["monitor_violation"]]
+    mon_stream = [c for c in streams if c["monitor_violation"]]
     seen = set()
     for c in mon:
         key = (c["ty"], c["out"], c["detail"])
@@ -111,7 +118,13 @@ def run(res):
     for c in mon_psbt[:2]:
         res.violation("StreamedPSBT: " + c["monitor_violation"],
                       {"domain": "wire-psbt", "seed": c["seed"], "inputs": c["inputs"], "psbt_hex": c["psbt_hex"]})
-    if not mon and not mon_psbt:
+    for c in mon_stream[:2]:
+        res.violation("framed stream: " + c["monitor_violation"],
+                      {"domain": "wire-framed", "seed": res.seed, "sequence": c["seq"], "types": c["types"], "values_coq": c["values"],
+                       "stream_written_by_msgs_write_hex": c["stream_hex"], "read_back": c["detail"],
+                       "expected": "msgs::write(m) == write_vec(as_vec(m)); msgs::read / read_message / from_reader return the messages one by one, nothing left",
+                       "replay": "harness wire framed --seed %d --n %d" % (res.seed, 60 if quick else 600)})
+    if not mon and not mon_psbt and not mon_stream:
         for i in f_wire[:2]:
             c = cases[i]
             res.violation("as_vec / from_vec of %s disagrees with the generated model (correspondence wire-msgs)" % c["ty"],
@@ -125,6 +138,14 @@ def run(res):
             c = psbts[i]
             res.violation("StreamedPSBT decoding disagrees with Model.Wire.streamed_post (correspondence wire-psbt)",
                           {"correspondence": "wire-psbt", "theorem": "C19_psbt_sound", "case": {k: v for k, v in c.items()}}, has_input=False)
+        for i in f_stream[:2]:
+            c = streams[i]
+            res.violation("msgs::write / msgs::read on a framed stream disagrees with the model (correspondence wire-framed)",
+                          {"correspondence": "wire-framed", "theorem": "C19_framed_stream",
+                           "case": {k: v for k, v in c.items() if k != "coq"}}, has_input=False)
+        for i in f_fmal[:2]:
+            res.violation("msgs::read on a malformed frame disagrees with the model (correspondence wire-framed)",
+                          {"correspondence": "wire-framed", "case": {k: v for k, v in fmals[i].items() if k != "coq"}}, has_input=False)
         for i in f_wp[:2]:
             res.violation("Script::is_witness_program disagrees with the model", {"correspondence": "wire-psbt", "case": wps[i]},
                           has_input=False)
@@ -135,12 +156,14 @@ def run(res):
     nontrivial = {c["coq"] for c in cases if c["kind"] != "min" and c["out"] in (0, 1)}
     nontrivial |= {c["coq"] for c in psbts if c["accepted"] and any(k.startswith("Nwu") for k in c["inputs"])}
     nontrivial |= {c["coq"] for c in mals if c["what"] not in ("valid", "empty", "one-byte")}
+    nontrivial |= {c["coq"] for c in streams if len(c["types"]) >= 2}
+    nontrivial |= {c["coq"] for c in fmals if c["what"] != "frame+tail"}
     per_type = {}
     for c in cases:
         per_type[c["ty"]] = per_type.get(c["ty"], 0) + 1
     small = [c for c in cases if c["len"] < 200 and c["kind"] == "rand"]
     cov.update({
-        "evaluations": len(cases) + len(mals) + len(psbts) + len(wps),
+        "evaluations": len(cases) + len(mals) + len(psbts) + len(wps) + len(streams) + len(fmals),
         "distinct_nontrivial": len(nontrivial),
         "rule": "msgs: for each of the registry's message types (generated list) the all-minimal value (None, empty, 0), the "
                 "all-maximal value (Some, full small arrays, integer maxima), random values with integers drawn from 0, 1, MAX, MAX-1, "
@@ -148,6 +171,9 @@ def run(res):
                 "LargeOctets, WireString, Array, ArrayBE; quick: up to 4 per type rotated by seed) driven to the largest denotable "
                 "length that fits MAX_MESSAGE_SIZE (exactly 131072 bytes where the unit is one byte), one more (refused as too large), "
                 "65536 bytes of Octets / a NUL in a WireString (as_vec panics) and 65536 array elements (count truncated: observation); "
+                "framed: sequences of 2-4 messages (every registry type first or second in some sequence; minimal / maximal / random / one "
+                "long message) written with msgs::write (must equal write_vec(as_vec())), read back with msgs::read, read_message::<T> and "
+                "from_reader, nothing left; single frames with length +1 / -1 / < 2 / > max, stream ending early, short length prefix; "
                 "malformed: truncations, one extra byte, changed payload bytes, another type's id, unknown ids, oversize; psbt: PSBTs "
                 "whose inputs are bare / witness_utxo only about an admissible output (witness programs of every boundary shape, p2sh) / witness_utxo "
                 "only about a legacy output (p2pkh, p2sh-like scripts of 22 and 24 bytes and with each fixed opcode wrong, near-miss witness "
@@ -157,16 +183,16 @@ def run(res):
                 "transaction; distinct by Coq term",
         "samples": [{k: v for k, v in c.items() if k not in ("value", "full_bytes")} for c in small[:2]]
                    + [{k: v for k, v in mals[5].items()}] + [{k: v for k, v in psbts[0].items() if k != "psbt_hex"}],
-        "traces_validated_against_impl": len(cases) + len(mals) + len(psbts) + len(wps),
-        "correspondence_disagreements": len(f_wire) + len(f_mal) + len(f_psbt) + len(f_wp),
-        "monitor_failures": len(mon) + len(mon_psbt),
+        "traces_validated_against_impl": len(cases) + len(mals) + len(psbts) + len(wps) + len(streams) + len(fmals),
+        "correspondence_disagreements": len(f_wire) + len(f_mal) + len(f_psbt) + len(f_wp) + len(f_stream) + len(f_fmal),
+        "monitor_failures": len(mon) + len(mon_psbt) + len(mon_stream),
         "registry_types": report["messages"],
         "registry_types_exercised": len(per_type),
         "cases_per_type_min": min(per_type.values()) if per_type else 0,
         "observations": [{"ty": c["ty"], "note": c["note"], "what": "Array writes its count with `as u16`: 65536 elements are "
                           "written as count 0 and msgs::from_vec then refuses the bytes (%s); not a value the wire format can denote, "
                           "the count bound is an explicit hypothesis of C19_registry (wf_msg)" % c["detail"]} for c in observations][:3],
-        "harness_stats": msgs.get("STATS", []) + mal.get("STATS", []) + psbt.get("STATS", []),
+        "harness_stats": msgs.get("STATS", []) + mal.get("STATS", []) + psbt.get("STATS", []) + framed.get("STATS", []),
     })
     res.assumptions = [
         "blob_laws: rust-bitcoin's Transaction and Psbt and txoo's TxoProof decode their own encodings (premise of the theorems; exercised by the harness, not proved)",
